@@ -1701,6 +1701,19 @@ def coq_wire(w, t, sch, labels) -> str:
     return coq_value(w, labels)
 
 
+def in_model_grammar(c: Case) -> bool:
+    """schema and top type are inside the Coq grammar (where Share.v predicts a result for every conforming input)"""
+    if not c.sch.model:
+        return False
+    WIRE_SIDE_COQ[0] = c.side == "unpack"
+    try:
+        coq_ty(c.top, c.sch)
+        coq_classes(c.sch)
+        return True
+    except (ValueError, KeyError):
+        return False
+
+
 def correspondence(ctx, cases, side):
     name = f"c18_{side}"
     terms, idx = [], []
@@ -1764,20 +1777,24 @@ def run(ctx: vlib.Ctx):
     n_unpack = ctx.budget(180, 1200)
     for side, n in (("pack", n_pack), ("unpack", n_unpack)):
         cases = []
+        crashes = []       # the model is total on conforming inputs of its grammar: the library must be, too
         attempts = 0
         probes = fixed_cases(ctx.rng, side) + union_probe_cases(ctx.rng, side) + wrapper_probe_cases(ctx.rng, side)
         while len(cases) < n and attempts < n * 3:
             attempts += 1
             extras = ctx.rng.random() < 0.3
             depth = ctx.rng.choice([1, 2, 2, 3, 3] if ctx.quick() else [1, 2, 3, 3, 4])
+            c = None
             try:
                 c = probes.pop() if probes else build_case(ctx.rng, side, depth, extras)
                 run_case(c)
-            except Exception as e:      # schema the library rejects at class creation: not a C18 matter
+            except Exception as e:      # the library rejects the schema at class creation
                 ctx.hist("outcome", "schema-rejected:" + type(e).__name__)
+                if c is not None and in_model_grammar(c):
+                    crashes.append((c, f"class creation / codec construction raised {type(e).__name__}: {e}"))
                 continue
-            finally:
-                pass
+            if c.exc is not None and in_model_grammar(c):
+                crashes.append((c, "call raised " + c.exc))
             c.coq = coq_case(c)         # before the oracle damages the result
             if mentions(c.top, "union") or any(mentions(ft, "union") for k in c.sch.classes for _, ft in k["fields"]):
                 ctx.hist("union_cases", f"{side}:" + ("model+oracle" if c.coq else "oracle-only"))
@@ -1789,6 +1806,15 @@ def run(ctx: vlib.Ctx):
                 ctx.sample({"side": side, "call": c.call_src, "value": c.value_src[:200],
                             "fields_root": [f"{fn}: {ty_src(ft, c.sch)}" for fn, ft in c.sch.classes[0]["fields"]]})
         correspondence(ctx, cases, side)
+        cname = f"library-total-where-model-is ({side})"
+        det = ""
+        if crashes:
+            c0, why = crashes[0]
+            det = json.dumps({"n_raised": len(crashes), "first": {"why": why[:400], "call": c0.call_src,
+                                                                   "value": c0.value_src[:600], "schema": c0.src[len(HEADER):][-1500:]}})
+        ctx.correspondence(cname, len(crashes), len(crashes), det)     # the agreeing cases are counted in the row above
+        if crashes:
+            ctx.not_shown("correspondence " + cname, det)
         for c in cases:
             drop_module(c.mod)
 
